@@ -909,3 +909,34 @@ theorem depthOf_step (q : Q K) (n : Nat) (nd : Node K) (hn : n ≠ 0) (hnd : q.n
   | succ m =>
     rw [depthOf]
     simp only [hnd, hlt, dite_true]
+
+/-- the builder creates nodes without the DIRTY flag -/
+theorem buildRec_clean (aabbs : Array (Aabb3 K)) (dil : K) (fuel : Nat) (q : Q K) (indices : Array Nat) (par plane : Nat)
+    (r : Q K × Nat × Aabb3 K) (h : buildRec aabbs dil fuel q indices par plane = some r)
+    (hq : ∀ (n : Nat) (nd : Node K), q.nodes[n]? = some nd → nd.dirty = false) :
+    ∀ (n : Nat) (nd : Node K), r.1.nodes[n]? = some nd → nd.dirty = false := by
+  revert hq
+  refine buildRec_induct aabbs dil (fun q _ _ _ r => (∀ (n : Nat) (nd : Node K), q.nodes[n]? = some nd → nd.dirty = false) →
+    ∀ (n : Nat) (nd : Node K), r.1.nodes[n]? = some nd → nd.dirty = false) ?_ ?_ fuel q indices par plane r h
+  · intro q indices par plane bx ids ps hsz hl hq n nd hnd
+    dsimp only at hnd
+    rw [Array.getElem?_push] at hnd
+    split at hnd
+    · cases hnd; rfl
+    · exact hq n nd hnd
+  · intro q indices par plane center d0 d1 s0 s1 s2 s3 q1 q2 q3 q4 c0 c1 c2 c3 b0 b1 b2 b3 nd hsz hcd hsp
+      p0 p1 p2 p3 _ _ _ _ hnd hq n x hx
+    have h4 := p3 (p2 (p1 (p0 (by
+      intro m y hy
+      dsimp only at hy
+      rw [Array.getElem?_push] at hy
+      split at hy
+      · cases hy; rfl
+      · exact hq m y hy))))
+    dsimp only at h4 hx
+    rw [Array.getElem?_setIfInBounds] at hx
+    split at hx
+    · split at hx
+      · cases hx; exact h4 _ nd hnd
+      · cases hx
+    · exact h4 n x hx
